@@ -9,6 +9,7 @@ import Gnet.Model.Options
 import Gnet.Proofs.Arith
 import Gnet.Proofs.Options
 import Gnet.Props.C16Url
+import Gnet.Props.C20
 namespace Gnet.Props.C16
 open Gnet Gnet.Options
 
@@ -23,6 +24,32 @@ theorem norm_read_cap_server (x : BitVec 64) :
     (2 ^ 62 < x.toInt → Gen.normReadCapServer x 65536#64 = none) :=
   Proofs.Options.norm_read_cap_server x
 
+/-- normalising a buffer capacity is idempotent: whatever `normReadCapServer` returns (for any request
+    on which it does not panic) is returned unchanged when given back as the request - options already
+    normalised by a first engine survive being passed to a second one -/
+theorem norm_cap_idempotent (x r : BitVec 64) (h : Gen.normReadCapServer x 65536#64 = some r) :
+    Gen.normReadCapServer r 65536#64 = some r := by
+  obtain ⟨h0, h1, h2, h3⟩ := norm_read_cap_server x
+  by_cases c0 : x.toInt ≤ 0
+  · rw [h0 c0] at h; cases h; decide
+  · by_cases c1 : x.toInt ≤ 1024
+    · rw [h1 (by omega) c1] at h; cases h; decide
+    · by_cases c2 : x.toInt ≤ 2 ^ 62
+      · obtain ⟨r', hr', _, hle, _, _⟩ := h2 (by omega) c2
+        rw [hr'] at h; cases h
+        have e0 : (0#64).toInt = 0 := by decide
+        have e1 : (1024#64).toInt = 1024 := by decide
+        have hx : Gen.normReadCapServer x 65536#64 = Gen.CeilToPowerOfTwo x := by
+          unfold Gen.normReadCapServer
+          simp only [BitVec.sle_iff_toInt_le, e0, e1]
+          rw [if_neg (by omega), if_neg (by omega)]
+        obtain ⟨q, hq, hqq⟩ := C20.ceil_idempotent x c2
+        rw [hx, hq] at hr'; cases hr'
+        unfold Gen.normReadCapServer
+        simp only [BitVec.sle_iff_toInt_le, e0, e1]
+        rw [if_neg (by omega), if_neg (by omega)]
+        exact hqq
+      · rw [h3 (by omega)] at h; cases h
 /-- the other three switches are the same function -/
 theorem norm_caps_agree (x mx : BitVec 64) :
     Gen.normWriteCapServer x mx = Gen.normReadCapServer x mx ∧
